@@ -107,6 +107,29 @@ CHECKS = {
         design_ref="DESIGN.md §5 C19",
         note="The theorems are about the Spec (validated transcription); the C++ is tied by C01/C03 correspondence and by "
              "evaluating the predicate on the implementation."),
+
+    "C08": dict(
+        technique="Lean 4 proof of the size-decision table of can_parse (all lengths, all limits) under explicit Expand3 / "
+                  "FastSound hypotheses + can_parse vs parse on the implementation under aimed limits",
+        text="Lean 4: Model/CanParse.lean is the decision table of can_parse over (fast-scanner answer, |input|, |base|, L); "
+             "theorem can_parse_size_logic proves it equal to 'parse base then input under L' for all values, given that a "
+             "normalized href is at most 3x its input (Expand3) and that a definite fast-scanner answer is right (FastSound); "
+             "the validation-only exits are read from the regenerated exit table. FastSound, Expand3 and the composition are "
+             "decided on the implementation for every generated (input, base, L), including the scanner's own grammar.",
+        design_ref="DESIGN.md §5 C08",
+        note="try_can_parse_absolute_fast itself is not modelled (compared through can_parse vs parse, ~20% of generated "
+             "cases give a definite scanner answer); Expand3 is an explicit hypothesis (IDNA expansion not proved)."),
+    "C12": dict(
+        technique="Lean 4 proof: list-of-pairs refinement, serialize/parse round trip for all lists, comparator = UTF-16 "
+                  "code-unit lexicographic order and strict weak order, stable merge sort lemmas; model-vs-code correspondence",
+        text="Lean 4 theorems for every byte string / list: initialize() = the Standard's urlencoded parser, to_string() = "
+             "its serializer, parse(to_string l) = l, set/remove/append/has/get laws, set = the Standard's set; the "
+             "hand-written UTF-8->UTF-16 comparator loop equals lexicographic comparison of code-unit streams and is a "
+             "strict weak order (so stable_sort is defined), sort is a stable sorted permutation. The model is run against "
+             "ada::url_search_params on generated operation sequences incl. malformed UTF-8 names.",
+        design_ref="DESIGN.md §5 C12",
+        note="std::stable_sort is modelled by List.mergeSort (both stable for a strict weak order); the decoder's "
+             "equality with real UTF-16 on valid UTF-8 is shown on examples, not as a general theorem."),
 }
 
 NOT_YET = "check not built yet (work in progress in this session; see DESIGN.md §8 build order)"
